@@ -46,6 +46,8 @@ LAYOUTS = {
     "admid": (["EVID", "ADMID"], ["O", "D1", "D2"]),
     "addl": (["ADDL", "II"], ["O", "D", "DA"]),
     "addl2": (["ADDL", "II"], ["O", "D", "DA", "DB"]),
+    # additional doses in occasions separated by reset records (only expand_additional_doses is examined on this layout)
+    "addlreset": (["EVID", "ADDL", "II"], ["O", "DA", "E3"]),
     "ss": (["SS", "II"], ["O", "D", "DS"]),
     "rate": (["RATE"], ["O", "D", "DR"]),
     # EVID layout with dropped columns of type dose/event in front of the real ones
@@ -329,14 +331,18 @@ def ref_expand(layout, recs):
     out = []
     for i, rows in individuals(recs):
         ev = []
+        occ = []  # the events of the current occasion (a reset record, EVID 3/4, opens a new one)
         for k in rows:
             r = recs[k]
-            ev.append((times[k], k, 0))
+            if r.get("EVID", 0) >= 3 and occ:
+                ev.extend(sorted(occ) if "ADDL" in r else occ)
+                occ = []
+            occ.append((times[k], k, 0))
             if r.get("ADDL", 0) > 0 and is_dose(r):
                 for n in range(1, int(r["ADDL"]) + 1):
-                    ev.append((times[k] + n * r["II"], k, n))
-        if any("ADDL" in recs[k] for k in rows):
-            ev.sort()  # (layouts with ADDL have no resets: times are non-decreasing)
+                    occ.append((times[k] + n * r["II"], k, n))
+        # chronological inside the occasion (the additional doses of an occasion stay in it)
+        ev.extend(sorted(occ) if any("ADDL" in recs[k] for k in rows) else occ)
         out.append((i, ev))
     return out
 
